@@ -245,6 +245,12 @@ pub fn compile1(src: &str) -> Outcome {
 }
 
 /// FNV-1a 64 — stable across processes (no RandomState), used for state hashing.
+/// the compiler's source tree (the harness itself is linked against it through the path dependency of
+/// harness/Cargo.toml; this is only used to locate test modules, sources to scan and the CLI package)
+pub fn repo_dir() -> String {
+    std::env::var("VERIF_REPO").unwrap_or_else(|_| "/repo".into())
+}
+
 pub fn fnv(s: &str) -> u64 {
     let mut h: u64 = 0xcbf29ce484222325;
     for b in s.as_bytes() {
